@@ -49,6 +49,10 @@ def _metric():
 
 
 def check(ctx):
+    # positional parameters keep their documented positions (a reordering survives every keyword call)
+    from ..sigrules import signatures as _signatures
+
+    _signatures(ctx, "R-SIG", classes=('skmatter.neighbors.SparseKDE',))
     P = ctx.P
     N = ctx.normalizer()
     cls = P.cls(CLS)
